@@ -55,6 +55,12 @@ static inline unsigned env_tok_int(const struct iss* in, int tok, unsigned lo, u
   if ((unsigned long)in->val[k] < lo || (unsigned long)in->val[k] > hi) { *res = RESULT_ERR_OUT_OF_RANGE; return 0; }
   *res = RESULT_OK; return (unsigned)in->val[k];
 }
+/* parseInt(token, base, lo, hi): the components of a date / time text are decimal numbers (the decoder prints them zero padded, which any other
+   base - or base detection - would read differently or reject) */
+static inline unsigned env_tok_int_b(const struct iss* in, int tok, int base, unsigned lo, unsigned hi, result_t* res) {
+  __CPROVER_assert(base == 10, "[C06,C07] date and time components are parsed as decimal numbers");
+  return env_tok_int(in, tok, lo, hi, res);
+}
 #include "gen_protos.h"
 #include "gen_funcs.inc"
 
